@@ -22,7 +22,7 @@ func init() {
 			"the set is connected from the start voxel under |dx|,|dy|,|df| <= 1 without wrap-around (column 0 and 2^h-1 are adjacent only when an end point has lon exactly 180, which the library folds to column 0); " +
 			"single voxel when both ends share one; the spatial-ID form gives the same set with h=v. Non-trivial = the line spans >= 2 voxels; distinct by (points, zooms).",
 		Assume: []string{"voxel boxes from the exact/closed-form reference of C02", "tolerances cover the documented 1e-10 deg latitude truncation of midpoints and float error of the point lookup (<= 8e-14 deg lon, <= 3e-12 deg lat)"},
-		N:      tierN(25_000, 1_000_000),
+		N:      tierN(60_000, 1_500_000),
 		Floor:  tierN(500, 5000),
 		Run:    runC06,
 	})
